@@ -1,5 +1,6 @@
 import Capella.Lemmas.Delete
 import Capella.Lemmas.AccessorProps
+import Capella.Lemmas.AccessorRound5
 import Capella.Lemmas.DeclDelete
 
 /-!
@@ -225,6 +226,41 @@ example : (exR1.err, exR1.deleted) = (some DeclDelete.Err.notImplemented, []) :=
 def exR2 := DeclDelete.operateDelete exC [("a", [1, 2, 3, 4]), ("b", [8, 7])] exD []
   [DeclDelete.Entry.members "a" [3, 2], DeclDelete.Entry.whole "b", DeclDelete.Entry.members "a" [1]]
 example : (exR2.err, exR2.deleted, exR2.g.elems) = (none, [3, 2, 8, 7, 1], [4]) := by decide
+
+/-! ### round 5: deletion through the relations that delegate or are virtual -/
+section Round5
+open Capella.Accessor Capella.AccTable
+
+/-- `RequirementsRelationAccessor.delete` of an object that is not among the relations of the list's owner is refused
+with ValueError and nothing changes. -/
+theorem requirements_relation_delete_of_non_member_changes_nothing (t : Tables) (row : ARow) (o : Nat) (es : List Nat)
+    (x : Nat) (rels : List Nat) (s : State) (hk : row.kind = .requirementsRelationAccessor)
+    (hr : (findRelations o s).val = .ok rels) (hx : rels.contains x = false) :
+    (accDelete t row o es x s).val = .error .valueError ∧ Same s (accDelete t row o es x s).st :=
+  reqRel_delete_not_member t row o es x rels s hk hr hx
+
+/-- `TypecastAccessor.delete` IS the `delete` of the relation it casts, on the same list and object (so every C09
+theorem about that relation's deletion applies); when the class it casts to has no such relation the call raises and
+changes nothing. Deletion through a virtual ReqIF relation is refused with NotImplementedError and changes nothing. -/
+theorem deletion_through_delegating_relations (t : Tables) (row : ARow) (o : Nat) (es : List Nat) (x : Nat) (s : State) :
+    (row.kind = .typecastAccessor →
+      (∀ inner, (typecastTarget t row s).val = .ok inner →
+        accDelete t row o es x s = accDeleteBase t inner o es x
+          { (typecastTarget t row s).st with hits := "typecast.delete" :: (typecastTarget t row s).st.hits }) ∧
+      (∀ e, (typecastTarget t row s).val = .error e →
+        (accDelete t row o es x s).val = .error e ∧ Same s (accDelete t row o es x s).st)) ∧
+    (row.kind = .elementRelationAccessor →
+      (accDelete t row o es x s).val = .error .notImplemented ∧ Same s (accDelete t row o es x s).st) :=
+  ⟨fun hk => typecast_delete_delegates t row o es x s hk,
+   fun hk => (elementRelation_refuses t row o es 0 .foreign x [] s hk).2.1⟩
+
+end Round5
+
+-- Non-vacuity (round 5): in a model without relation elements no object is a member of `Requirement.relations`.
+example : (match (Capella.Accessor.accDelete ⟨[], []⟩
+      ⟨"R", "relations", .requirementsRelationAccessor, true, true, 0, false, [], none, none, none, [], false, none, [], some "long_name", []⟩
+      1 [] 2 { frags := [{ name := "m", semantic := true, idtypes := ["id"], rows := [⟨1, none, "root", [("id", "r")], none⟩, ⟨2, some 1, "k", [("id", "k")], none⟩] }], ix := [] }).val with
+    | .error .valueError => true | _ => false) = true := by decide +kernel
 
 -- Non-vacuity: the enter phase can fail (here: the target is not an element of the model), which is the hypothesis
 -- of `refused_deletion_changes_nothing_api`.
